@@ -103,6 +103,31 @@ def run(tier, seed):
                                  {'pattern': s, 'namespaces': nsmap, 'markup': matchcheck.markup_of(sc), 'tree': sc.label,
                                   'select_indices': a, 'match_each_indices': b, 'pristine_copy_indices': fresh,
                                   'history': history})
+                # filter(iterable): every item is asked on its own (it is its own :scope), whatever else is in the list and in
+                # whatever order; also with a selector that mentions the scope
+                s_keep, c_keep = s, c
+                if it % 2 == 0:
+                    s = rnd.choice([':scope', ':not(:scope)', ':scope > *', '* > :scope', ':is(:scope, p)', ':scope:has(> *)', '&'])
+                    c = sv.compile(s)
+                lst = rnd.sample(elements, min(6, len(elements)))
+                lst = lst + [x for e_ in lst[:2] for x in e_.find_all(True, recursive=False)][:4]
+                with warnings.catch_warnings():
+                    warnings.simplefilter('ignore')
+                    try:
+                        want = [id(e) for e in lst if c.match(e)]
+                        g1 = [id(e) for e in c.filter(lst)]
+                        g2 = [id(e) for e in c.filter(list(reversed(lst)))][::-1]
+                        g3 = [id(e) for e in c.filter(iter(lst))]
+                    except Exception:
+                        want = g1 = g2 = g3 = None
+                if want is not None:
+                    ck.count(('filter-iterable', profile, ':scope' in s or '&' in s))
+                    if not (want == g1 == g2 == g3):
+                        ck.violation(f'filter({s!r}, [elements]) differs from asking each element alone (or depends on the order of the list)',
+                                     {'pattern': s, 'markup': matchcheck.markup_of(sc), 'tree': sc.label, 'list': [str(e)[:60] for e in lst],
+                                      'match_each': [idx[i] for i in want], 'filter_list': [idx[i] for i in g1],
+                                      'filter_reversed_list': [idx[i] for i in g2], 'filter_iterator': [idx[i] for i in g3]})
+                s, c = s_keep, c_keep
                 # filter(tag) shares one matcher over the children
                 for tag in rnd.sample(elements, min(2, len(elements))):
                     with warnings.catch_warnings():
